@@ -498,3 +498,28 @@ func LiveThreads() []Blocked {
 	}
 	return out
 }
+
+// CtxErr is `ctx.Err()` in instrumented code: the state of a context is shared memory
+// synchronised inside package context, so observing it is a scheduling point.
+func CtxErr(c interface{ Err() error }) error {
+	if Active && !aborting {
+		point(nil, "ctx.Err")
+	}
+	return c.Err()
+}
+
+// CtxCancel is a call of a context cancel function in instrumented code.
+func CtxCancel(f func()) {
+	if Active && !aborting {
+		point(nil, "ctx cancel")
+	}
+	f()
+}
+
+// CtxCancelCause is a call of a context.CancelCauseFunc.
+func CtxCancelCause(f func(error), err error) {
+	if Active && !aborting {
+		point(nil, "ctx cancel")
+	}
+	f(err)
+}
